@@ -7,4 +7,5 @@ Extraction "c09_model" force_types
   trie_empty trie_lookup trie_find_node trie_insert trie_remove
   byte_index byte_index_unrepaired index_in_range
   avl_step ht_step trie_step run
+  avl_step_cb ht_step_cb trie_step_cb runf ht_clear_cb ht_count
   havl_init havl_step habs hparents_ok hht_init hht_step hht_bucket.
